@@ -123,10 +123,17 @@ def run_roundtrip(sc):
         info = Info(time=None, grid=NoGrid(dim=len(shape), data_shape=shape), mask=mask, units="m")
         payloads = [(data.copy(), 1.0), (np.ma.array(data.copy(), mask=mask, shrink=False), 1.0),
                     # quantified, unmasked, in foreign units: converted AND masked
-                    (tools.UNITS.Quantity(data.copy(), "km"), 1000.0), (tools.UNITS.Quantity(data.copy(), "m"), 1.0)]
+                    (tools.UNITS.Quantity(data.copy(), "km"), 1000.0), (tools.UNITS.Quantity(data.copy(), "m"), 1.0),
+                    # array-likes that are no numpy arrays (what a model callback may well return), data that already
+                    # carries its time axis, a forced copy
+                    (data.tolist(), 1.0), (tuple(map(tuple, data.tolist())) if data.ndim == 2 else tuple(data.tolist()), 1.0),
+                    (data.copy()[np.newaxis, ...], 1.0), ((data.copy(), "force_copy"), 1.0)]
         for payload, fac in payloads:
             try:
-                p = tools.prepare(payload, info)
+                if isinstance(payload, tuple) and len(payload) == 2 and isinstance(payload[1], str):
+                    p = tools.prepare(payload[0], info, force_copy=True)
+                else:
+                    p = tools.prepare(payload, info)
             except Exception as e:
                 v("mask-prepare", type(e).__name__, f"{sc}: prepare raised {type(e).__name__}: {e}")
                 continue
